@@ -126,3 +126,19 @@ package directory
 //@   tags C07 C08
 //@   decoder r
 //@   ensures[C08] old(r.len) - old(r.pos) < 28 ==> err != nil
+
+// Listing: one critical section, the tables are not changed, and (before the sort, whose effect on the
+// order is not modelled: sort.Sort is an unknown call) every element appended is the entry of a
+// visible service under its own id. The sortedness and the permutation property of sort.Sort are not
+// decided.
+//@ func (s *serviceDirectory) Services() (result []ServiceInfo, err error)
+//@   tags C15
+//@   requires !s.mutex.lockw
+//@   modifies everything
+//@   ensures !s.mutex.lockw && err == nil
+//@   ensures[C15] forall k uint32 {at_unlock(has(s.services, k))} :: (at_unlock(has(s.services, k)) <==> at_lock(has(s.services, k))) && (at_unlock(has(s.staging, k)) <==> at_lock(has(s.staging, k)))
+//@   ensures[C15] at_unlock(s.lastID) == at_lock(s.lastID)
+//@   call Sort#1: assert[C15] s.mutex.lockw && forall j int {list[j].ServiceId} :: 0 <= j && j < len(list) ==> has(s.services, list[j].ServiceId) && list[j].Name == s.services[list[j].ServiceId].Name
+//@   loop 1:
+//@     invariant s.mutex.lockw && s.services == at_lock(s.services) && s.staging == at_lock(s.staging) && s.lastID == at_lock(s.lastID) && fresh(list) && oldarrays_unchanged(list)
+//@     invariant forall j int {list[j].ServiceId} :: 0 <= j && j < len(list) ==> has(s.services, list[j].ServiceId) && list[j].Name == s.services[list[j].ServiceId].Name
